@@ -19,7 +19,7 @@ META = dict(
 
 CONSTS = {
     # tier: (exhaustive cfg for TLC's own check, generator cfg, walks, walk depth, V traces, V steps)
-    "quick": dict(check="DomTree.quick.cfg", gen="DomTreeGen.quick.cfg", walks=160, wdepth=30, vtraces=6, vsteps=400, vnodes=30),
+    "quick": dict(check="DomTree.quick.cfg", gen="DomTreeGen.quick.cfg", walks=96, wdepth=30, vtraces=6, vsteps=400, vnodes=30),
     "thorough": dict(check="DomTree.thorough.cfg", gen="DomTreeGen.thorough.cfg", walks=6000, wdepth=60, vtraces=40, vsteps=1500, vnodes=40),
 }
 
